@@ -634,6 +634,19 @@ fn main() {
                             None => "none".to_string(),
                         };
                         both("postfix-owned", q(|| twice(fresh.clone(), false), |x| x), q(|| twice(asked.clone(), true), |x| x));
+                        // SHARING: four threads ask one shared value at once; each answer is the answer of a value asked alone
+                        let alone = summary(&fresh, fresh.verif_pattern());
+                        let shared = std::sync::Arc::new(Glob::new(&e).unwrap().into_owned());
+                        let answers: Vec<String> = (0..4)
+                            .map(|_| {
+                                let g = shared.clone();
+                                std::thread::spawn(move || { let _ = g.is_match(CandidatePath::from("a/b")); summary(&*g, g.verif_pattern()) })
+                            })
+                            .collect::<Vec<_>>()
+                            .into_iter()
+                            .map(|t| t.join().unwrap_or_else(|_| "panic".to_string()))
+                            .collect();
+                        out.push(format!("shared={}", match answers.iter().find(|a| **a != alone) { None => "same".to_string(), Some(a) => format!("DIFF<{}>", a) }));
                         out.join(" ")
                     },
                     _ => "err".to_string(),
